@@ -10,7 +10,7 @@ package agent
 // drainFrames of every connection run as threads of the controlled scheduler. The agent M is the same
 // real agent as in part A (agent.New: real handlePeerConnected / handlePeerDisconnect, routing manager,
 // relay table). The transport under each connection is a harness-owned wire: frames P would send (P's
-// real SendFullTable output, a STREAM_OPEN P->M->Q and a marker frame) are pending on the wire when
+// real SendFullTable output and a STREAM_OPEN P->M->Q) are pending on the wire when
 // the connection is handed to registerConnection; failures are injected into the wire:
 //   wr   : writes fail      -> the keepalive loop's next send fails   -> Close + handleDisconnect
 //   rd   : reads fail       -> the read loop gets an error            -> Close + handleDisconnect
@@ -50,16 +50,21 @@ type c32Script struct {
 	Fail    string // "", "wr", "rd", "clk", "rd+wr"
 	Dups    int    // threads registering a further connection right away
 	Redials int    // threads registering a further connection once connection 0's transport was closed
+	Open    bool   // every connection also carries a STREAM_OPEN P->M->Q (a relay entry owned by that connection)
 }
 
 var c32Scripts = []c32Script{
-	{Name: "dial+accept", Dups: 2},
-	{Name: "dup-on-live", Pre: true, Dups: 1},
-	{Name: "flap-wr", Pre: true, Fail: "wr", Redials: 1},
-	{Name: "flap-rd", Pre: true, Fail: "rd", Redials: 1},
-	{Name: "flap-clk", Pre: true, Fail: "clk", Redials: 1},
-	{Name: "flap-rd+wr", Pre: true, Fail: "rd+wr", Redials: 1},
-	{Name: "flap-wr-2", Pre: true, Fail: "wr", Redials: 2},
+	{Name: "dial+accept", Dups: 2, Open: true},
+	{Name: "dup-on-live", Pre: true, Dups: 1, Open: true},
+	{Name: "flap-wr", Pre: true, Fail: "wr", Redials: 1, Open: true},
+	{Name: "flap-rd", Pre: true, Fail: "rd", Redials: 1, Open: true},
+	{Name: "flap-clk", Pre: true, Fail: "clk", Redials: 1, Open: true},
+	{Name: "flap-rd+wr", Pre: true, Fail: "rd+wr", Redials: 1, Open: true},
+	{Name: "flap-wr-2", Pre: true, Fail: "wr", Redials: 2, Open: true},
+	// the same with one frame (P's route advertisement) per connection: fewer scheduling points, deeper bound
+	{Name: "flap-wr-min", Pre: true, Fail: "wr", Redials: 1},
+	{Name: "flap-rd-min", Pre: true, Fail: "rd", Redials: 1},
+	{Name: "flap-clk-min", Pre: true, Fail: "clk", Redials: 1},
 }
 
 func c32ScriptByName(n string) (c32Script, bool) {
@@ -121,11 +126,12 @@ func c32SchedRunRep(r *vmc.Result, sc c32Script, timerCost int, c *vmc.Chooser, 
 			r.HarnessError("C32 part B: P produced no route advertisement for connection %d", k)
 			return ob
 		}
-		open := c32OpenFrame(uint64(200+k), []identity.AgentID{qid, nsID(7)})
-		marker := &protocol.Frame{Type: protocol.FrameStreamData, StreamID: uint64(9000 + k), Payload: []byte{byte(k)}}
-		ob1, _ := open.Encode()
-		mb, _ := marker.Encode()
-		pre[k] = append(adv, ob1, mb)
+		pre[k] = adv
+		if sc.Open {
+			open := c32OpenFrame(uint64(200+k), []identity.AgentID{qid, nsID(7)})
+			ob1, _ := open.Encode()
+			pre[k] = append(pre[k], ob1)
+		}
 	}
 
 	own := &c32Owner{routes: map[string]int{}, relays: map[string]int{}}
@@ -199,6 +205,8 @@ func c32SchedRunRep(r *vmc.Result, sc c32Script, timerCost int, c *vmc.Chooser, 
 			// connection 0 comes up and receives P's frames one at a time (no concurrency of interest here)
 			register(0, false)
 			next = 1
+			// let the new loops park (an idle scheduler fires this 1 ns timer for free)
+			vtime.Sleep(time.Nanosecond)
 			for i, b := range pre[0] {
 				wires[0].Feed(b)
 				want := i + 1
@@ -209,7 +217,7 @@ func c32SchedRunRep(r *vmc.Result, sc c32Script, timerCost int, c *vmc.Chooser, 
 			m.processFrame(qid, c32OpenFrame(100, []identity.AgentID{pid, nsID(7)}))
 			own.learn(before, c32Snapshot(nt), 0)
 			st := c32Snapshot(nt)
-			if len(st.routes) < 3 || len(st.relays) != 2 {
+			if wantRelays := 1 + map[bool]int{true: 1}[sc.Open]; len(st.routes) < 3 || len(st.relays) != wantRelays {
 				r.HarnessError("C32 part B: script %s did not build the expected state on connection 0: %v %v", sc.Name, c32Keys(st.routes), c32Keys(st.relays))
 			}
 			switch sc.Fail {
